@@ -17,6 +17,7 @@
 //   K addr len                x86-64 assembler: call <absolute addr> into .text (address-table entry)  -> "K:<err>:<text size>"
 //   G id add clr              Section::add_flags(add); clear_flags(clr)                                  -> "G:<flags>:<has_flag(clr)>"
 //   E id                      label bound at the end of section id; embed_label(label) into .text (RelocType::kRelToAbs) -> "E:<err>:<text size>:<label offset>"
+//   KR addr                   x86-64 assembler: jz <absolute addr> into .text (RelocType::kAbsToRel, no address-table fallback)   -> "KR:<err>:<text size>"
 //   ED id1 id2 size           embed_label_delta(label at end of id1, label at end of id2, size) into .text (RelocType::kExpression) -> "ED:<err>:<text size>:<o1>:<o2>"
 //   X base used               relocate_to_base(base, &summary)                                         -> "X:<err>:<reduction>"
 #include <asmjit/core.h>
@@ -101,6 +102,36 @@ int main() {
     std::vector<uint64_t> call_targets;
 
     while (in >> op) {
+      if (op == "T") {
+        // translator: the constants of /repo's headers / initial state the Coq model hard-codes (regenerated into coq/gen/C10Consts.v)
+        std::string t = "T";
+        auto kv = [&](const char* k, unsigned long long v) { snprintf(tmp, sizeof(tmp), ";%s=%llu", k, v); t += tmp; };
+        auto hexs = [&](const char* k, const char* p, size_t n) { t += std::string(";") + k + "="; for (size_t i = 0; i < n; i++) { snprintf(tmp, sizeof(tmp), "%02x", unsigned(uint8_t(p[i]))); t += tmp; } if (!n) t += "-"; };
+        kv("max_name", Globals::kMaxSectionNameSize);
+        kv("name_cells", sizeof(code.text_section()->_name.str));
+        kv("no_offset", Globals::kNoSectionOffset);
+        kv("f_executable", unsigned(SectionFlags::kExecutable)); kv("f_readonly", unsigned(SectionFlags::kReadOnly));
+        kv("f_zeroinit", unsigned(SectionFlags::kZeroInitialized)); kv("f_comment", unsigned(SectionFlags::kComment));
+        kv("f_builtin", unsigned(SectionFlags::kBuiltIn)); kv("f_implicit", unsigned(SectionFlags::kImplicit));
+        kv("copy_pad_section", unsigned(CopySectionFlags::kPadSectionBuffer)); kv("copy_pad_target", unsigned(CopySectionFlags::kPadTargetBuffer));
+        Section* tx = code.text_section();
+        kv("text_id", tx->section_id()); kv("text_flags", unsigned(tx->flags())); kv("text_align", tx->alignment());
+        snprintf(tmp, sizeof(tmp), ";text_order=%d", int(tx->order())); t += tmp;
+        kv("text_offset", tx->offset()); hexs("text_name", tx->name(), strlen(tx->name()));
+        kv("new_section_align_of_0", [&]() { Section* s0 = nullptr; code.new_section(Out(s0), "z", 1, SectionFlags::kNone, 0, 0); return s0 ? s0->alignment() : 0u; }());
+        kv("new_section_offset", code.section_by_id(1)->offset());
+        x86::Assembler a0(&code);
+        a0.call(Imm(uint64_t(0x123456789ABCull)));
+        hexs("call_bytes", reinterpret_cast<const char*>(tx->data()), tx->buffer_size());
+        Section* at = code.address_table_section();
+        kv("addrtab_align", at ? at->alignment() : 0); kv("addrtab_vsize_per_slot", at ? at->virtual_size() : 0);
+        snprintf(tmp, sizeof(tmp), ";addrtab_order=%d", at ? int(at->order()) : 0); t += tmp;
+        hexs("addrtab_name", at ? at->name() : "", at ? strlen(at->name()) : 0);
+        Label L = a0.new_label(); a0.bind(L); size_t b0 = tx->buffer_size(); a0.embed_label(L);
+        kv("embed_label_size", tx->buffer_size() - b0);
+        emit(t);
+        continue;
+      }
       if (op == "D") {
         unsigned n; in >> n;
         for (unsigned i = 0; i < n; i++) {
@@ -261,6 +292,14 @@ int main() {
         if (e == Error::kOk) e = as->section(code.text_section());
         if (e == Error::kOk) e = as->embed_label(L);
         snprintf(tmp, sizeof(tmp), "E:%s:%zu:%" PRIu64, err_name(e), code.text_section()->buffer_size(), loff);
+        emit(tmp);
+      }
+      else if (op == "KR") {
+        // jz <absolute address>: a conditional jump cannot go through the address table, its rel32 is an AbsToRel relocation
+        uint64_t addr; in >> addr;
+        if (!as) { as = new x86::Assembler(&code); }
+        Error e = as->jz(Imm(addr));
+        snprintf(tmp, sizeof(tmp), "KR:%s:%zu", err_name(e), code.text_section()->buffer_size());
         emit(tmp);
       }
       else if (op == "ED") {
